@@ -124,7 +124,21 @@ class ModelSha:
         return 'h%d' % self.cid
 
 
+_PERMS = {2: [(0, 1), (1, 0)], 3: [(0, 1, 2), (0, 2, 1), (1, 0, 2), (1, 2, 0), (2, 0, 1), (2, 1, 0)]}
+
+
 class BaseEnv:
+    perm_listdir = False     # os.listdir order is unspecified: return entries in a solver-chosen order
+
+    def permute(self, names):
+        """One permutation hole per path (shared by every listdir call of the path)."""
+        if not self.perm_listdir or len(names) not in (2, 3):
+            return names
+        if getattr(self, '_perm', None) is None:
+            self._perm = self.fs.eng.choose('lsperm', 6)
+        p = _PERMS[len(names)][self._perm % len(_PERMS[len(names)])]
+        return [names[i] for i in p]
+
     def __init__(self):
         self.hooks = []
         self.calls = 0
@@ -189,7 +203,7 @@ class ModelEnv(BaseEnv):
 
         def listdir(p):
             call('listdir', (p,), False)
-            return fs.listdir(p)
+            return self.permute(fs.listdir(p))
 
         def mkdir(p, mode=0o777):
             call('mkdir', (p,), True)
@@ -439,7 +453,8 @@ class RealEnv(BaseEnv):
                   normpath=rp.normpath, isabs=rp.isabs, splitext=rp.splitext, relpath=rp.relpath,
                   commonpath=rp.commonpath, commonprefix=rp.commonprefix, sep='/')
         self.os = NS('os', path=path, name='posix', sep='/', stat=w('stat', _os.stat, False),
-                     lstat=w('stat', _os.lstat, False), listdir=w('listdir', _os.listdir, False),
+                     lstat=w('stat', _os.lstat, False),
+                     listdir=w('listdir', lambda p: self.permute(sorted(_os.listdir(p))), False),
                      mkdir=w('mkdir', _os.mkdir, True), makedirs=w('makedirs', _os.makedirs, True),
                      rename=w('rename', _os.rename, True, 2), replace=w('replace', _os.replace, True, 2),
                      rmdir=w('rmdir', _os.rmdir, True), remove=w('remove', _os.remove, True),
